@@ -37,16 +37,16 @@ RULE = ("plans = coin x puzzle kinds x m-of-n x key forms x hash types x key-sup
         "transport encodings x tamper/revert/validate histories; non-trivial iff the run had >= 2 signing passes on one "
         "copy, a tamper followed by validation, a non-ALL hash type, or a key-store fault")
 FAULT_KINDS = ["stale_copy_signed", "duplicate_pass", "wrong_key_pass", "db_statement_error", "db_secrets_cleared",
-               "tamper_field", "tamper_unlocking_data", "tamper_unspent", "unspent_dropped", "revert"]
+               "tamper_field", "tamper_unlocking_data", "tamper_signature_hash_type", "tamper_unspent", "unspent_dropped", "revert"]
 PROBES = ["kind:p2pk", "kind:p2pkh", "kind:multisig", "kind:p2sh-multisig", "kind:p2wpkh", "kind:p2wsh-multisig",
           "kind:p2sh-p2wpkh", "kind:p2sh-p2wsh-multisig", "n>=16", "m>=10", "uncompressed_key", "hash_type_non_all",
           "anyonecanpay", "sighash_single_no_output", "partial_then_complete", "order_permutation_checked",
           "supply_dict", "supply_wifs", "supply_keychain", "supply_keychain_hd", "backend_pure_python", "coin_bch", "coin_btg", "coin_ltc", "coin_other", "coin_grs_classes_direct",
           "wire_hex", "wire_bin", "wire_unspents", "txid_stable_after_witness_sign", "digest_at_seam_checked",
           "sighash_direct_256", "codeseparator_script", "noncommitted_change_still_valid", "committed_change_invalidates",
-          "revalidate_fresh_equal", "inputs>=253", "spendable_form_text", "spendable_form_dict", "spendable_form_bin", "wire_big_inputs", "wire_big_outputs",
+          "revalidate_fresh_equal", "default_flags_verdict_checked", "inputs>=253", "spendable_form_text", "spendable_form_dict", "spendable_form_bin", "wire_big_inputs", "wire_big_outputs",
           "wire_big_out_script", "wire_big_in_script", "wire_big_witness_item", "wire_big_witness_count", "wire_tx_witness",
-          "wire_tx_witness_only_empty_items"]
+          "wire_tx_witness_only_empty_items", "wire_tx_unspents"]
 
 _STD = None
 
@@ -127,7 +127,9 @@ def gen_plan(rng, tier, index, config=None):
         ks = r.sample(range(len(keys)), n)
         if kind not in WITNESS_KINDS and hd is None and r.chance(0.2):  # (BIP32 keys are compressed by definition)
             keys[ks[0]]["compressed"] = False
-        inputs.append({"kind": kind, "m": m, "keys": ks, "value": r.pick([546, 10**5, 10**8, r.between(1, 21 * 10**14)]),
+        inputs.append({"kind": kind, "m": m, "keys": ks,
+                       "value": r.weighted([(546, 3), (10**5, 3), (10**8, 3), (r.between(1, 21 * 10**14), 3), (21 * 10**14 + 1, 1),
+                                            ((1 << 63) - 1, 0.5), (1 << 63, 0.5), ((1 << 64) - 1, 1)]),
                        "prev": r.bytes(32).hex(), "idx": r.pick([0, 1, 7, 0xFFFFFFFE]),
                        "seq": r.pick([0xFFFFFFFF, 0xFFFFFFFE, 0, r.bits(32)])})
     # keys used uncompressed must never be listed in a witness puzzle
@@ -191,7 +193,7 @@ def gen_plan(rng, tier, index, config=None):
             kind = r.weighted([("version", 2), ("locktime", 2), ("outpoint", 2), ("sequence", 2), ("out_value", 3),
                                ("out_script", 2), ("out_add", 1), ("out_remove", 1), ("out_swap", 1), ("in_remove", 1),
                                ("in_swap", 1), ("unlock_swap", 1), ("unspent_value", 3), ("unspent_script", 2),
-                               ("unspent_drop", 1), ("sig_bit", 0 if forkcoin else 3), ("key_bit", 0 if forkcoin else 1),
+                               ("unspent_drop", 1), ("sig_hashtype", 3), ("sig_bit", 0 if forkcoin else 3), ("key_bit", 0 if forkcoin else 1),
                                ("script_item_bit", 0 if forkcoin else 1)])
             steps.append({"op": "tamper", "copy": cp, "kind": kind, "a": r.bits(16), "b": r.bits(16), "bit": r.below(8),
                           "bytes": r.bytes(32).hex(), "val": r.pick([1, -1, 1000, r.between(1, 10**6)])})
@@ -253,6 +255,7 @@ class _Copy(object):
         self.u = unspents         # list of {"value","script"} or None, per input (recorded spent outputs)
         self.history = []         # snapshots for revert: (model, unspents)
         self.clean = True         # no unlocking-data tampering so far (C05 pass invariants apply)
+        self.ht_only = True       # the only unlocking-data tampering so far changed hash-type bytes of signatures
         self.specs = []           # puzzle spec per input (what the coordinator built), kept aligned with the inputs
         self.signed_passes = 0
 
@@ -349,6 +352,7 @@ def execute(plan, ctx):
     W.copies = {}
     W.scripts = []
     W.V = sv.Validator(W.coin)
+    W.Vlax = sv.Validator(W.coin, strict=False)
     if cfg["network"] == "BCH":
         ctx.probe("coin_bch")
     elif cfg["network"] == "BTG":
@@ -828,6 +832,15 @@ def _compare_verdicts(ctx, W, cp, verdicts, when):
         elif cp.clean and d and not v.valid:
             # canonical unlocking data: the only reason to fail is a signature that does not verify or is missing
             ctx.violate("C06", "invalid-input-reported-valid-under-default-flags", {"input": j, "kind": v.kind, "why": v.why, "when": when})
+        elif cp.ht_only and not isinstance(d, tuple):
+            # unlocking data canonical except for hash-type bytes: under the default flags each signature must verify
+            # against the digest its own hash-type byte defines
+            lax = W.Vlax.input(cp.m, j, cp.u[j] if j < len(cp.u) else None)
+            if lax.valid is not None and lax.valid != d:
+                ctx.violate("C06", "default-flags-verdict-mismatch", {"input": j, "pycoin": d, "model": lax.valid, "kind": lax.kind,
+                                                                      "why": lax.why, "when": when})
+            elif lax.valid is not None:
+                ctx.probe("default_flags_verdict_checked")
 
 
 def _op_validate(ctx, W, st):
@@ -891,6 +904,7 @@ def _op_fork(ctx, W, st):
         return
     n = _Copy(copy.deepcopy(cp.obj), copy.deepcopy(cp.m), copy.deepcopy(cp.u))
     n.clean = cp.clean
+    n.ht_only = cp.ht_only
     n.specs = copy.deepcopy(cp.specs)
     W.copies[st["dst"]] = n
     ctx.fault("stale_copy_signed")
@@ -955,6 +969,7 @@ def _op_send(ctx, W, st):
             ctx.violate("C07", "transport-raised", {"enc": enc, "exc": type(e).__name__, "msg": str(e)[:200]})
             return
     n.clean = cp.clean
+    n.ht_only = cp.ht_only
     n.specs = copy.deepcopy(cp.specs)
     W.copies[st["dst"]] = n
 
@@ -964,7 +979,7 @@ def _op_tamper(ctx, W, st):
     if cp is None:
         return
     m, u = cp.m, cp.u
-    snapshot = (copy.deepcopy(m), copy.deepcopy(u), cp.clean, copy.deepcopy(cp.specs))
+    snapshot = (copy.deepcopy(m), copy.deepcopy(u), cp.clean, copy.deepcopy(cp.specs), cp.ht_only)
     kind = st["kind"]
     a, b, bit, val = st["a"], st["b"], st["bit"], st["val"]
     nin, nout = len(m["ins"]), len(m["outs"])
@@ -989,7 +1004,7 @@ def _op_tamper(ctx, W, st):
             if not nout:
                 return
             k = a % nout
-            m["outs"][k]["value"] = max(0, m["outs"][k]["value"] + val)
+            m["outs"][k]["value"] = min((1 << 64) - 1, max(0, m["outs"][k]["value"] + val))
         elif kind == "out_script":
             if not nout:
                 return
@@ -1041,7 +1056,10 @@ def _op_tamper(ctx, W, st):
             j = a % nin
             if u[j] is None:
                 return
-            u[j]["value"] = max(0, u[j]["value"] + val)
+            nv = max(0, u[j]["value"] + val)
+            if nv > (1 << 64) - 1:
+                nv = u[j]["value"] - abs(val)
+            u[j]["value"] = nv
             ctx.fault("tamper_unspent")
         elif kind == "unspent_script":
             j = a % nin
@@ -1067,6 +1085,26 @@ def _op_tamper(ctx, W, st):
             j = a % nin
             u[j] = None
             ctx.fault("unspent_dropped")
+        elif kind == "sig_hashtype":
+            # change only the hash-type byte of one signature (DER body untouched)
+            j = a % nin
+            items = sv.parse_push_only(m["ins"][j]["script"])
+            if isinstance(items, str):
+                return
+            wit = list(m["ins"][j]["witness"])
+            pool = [("s", i) for i in range(len(items)) if len(items[i]) >= 9 and items[i][0] == 0x30] + \
+                   [("w", i) for i in range(len(wit)) if len(wit[i]) >= 9 and wit[i][0] == 0x30]
+            if not pool:
+                return
+            where, i = pool[b % len(pool)]
+            src = items if where == "s" else wit
+            mask = [0x20, 0x40, 0x60, 0x80, 0x02, 0x03, 0x01, 1 << bit][(b >> 5) % 8]
+            src[i] = src[i][:-1] + bytes([src[i][-1] ^ mask])
+            if where == "s":
+                m["ins"][j]["script"] = b"".join(sh.push(x) for x in items)
+            else:
+                m["ins"][j]["witness"] = wit
+            field = "hashtype"
         elif kind in ("sig_bit", "key_bit", "script_item_bit"):
             j = a % nin
             items = sv.parse_push_only(m["ins"][j]["script"])
@@ -1099,8 +1137,12 @@ def _op_tamper(ctx, W, st):
     except (ZeroDivisionError, IndexError):
         cp.m, cp.u = snapshot[0], snapshot[1]
         return
-    if not field:
+    if field == "hashtype":
         cp.clean = False
+        ctx.fault("tamper_signature_hash_type")
+    elif not field:
+        cp.clean = False
+        cp.ht_only = False
         ctx.fault("tamper_unlocking_data")
     else:
         ctx.fault("tamper_field")
@@ -1129,7 +1171,7 @@ def _op_revert(ctx, W, st):
     cp = W.copies.get(st["copy"])
     if cp is None or not cp.history:
         return
-    cp.m, cp.u, cp.clean, cp.specs = cp.history.pop()
+    cp.m, cp.u, cp.clean, cp.specs, cp.ht_only = cp.history.pop()
     _write_obj(W, cp)
     m2, u2 = _read_obj(cp.obj)
     if m2 != cp.m or u2 != cp.u:
@@ -1382,6 +1424,28 @@ def _op_wire_tx(ctx, W, st):
         return
     exp = mw.enc_tx(m)
     ctx.obs("wire_tx", len(raw), mw.has_witness(m))
+    if st.get("unspents") and len(st["unspents"]) == len(m["ins"]):
+        # the optional appended spent-output extension, for any non-zero 64-bit amount
+        us = [{"value": v, "script": bytes.fromhex(sc)} for v, sc in st["unspents"]]
+        try:
+            tx.set_unspents([W.Tx.TxOut(u["value"], u["script"]) for u in us])
+            rawu = tx.as_bin(include_unspents=True)
+            backu = W.Tx.from_bin(rawu)
+            hexu = W.Tx.from_hex(tx.as_hex(include_unspents=True))
+            gotu = [_read_obj(o)[1] for o in (backu, hexu)]
+            again = backu.as_bin(include_unspents=True)
+        except Exception as e:
+            ctx.violate("C07", "transport-raised", {"enc": "tx+unspents", "exc": type(e).__name__, "msg": str(e)[:200]})
+            return
+        ctx.probe("wire_tx_unspents")
+        expu = exp + b"".join(struct.pack("<Q", u["value"]) + mw.compact(len(u["script"])) + u["script"] for u in us)
+        if rawu != expu:
+            ctx.violate("C07", "wire-bytes", {"enc": "tx+unspents", "len": [len(rawu), len(expu)]})
+        if any(g != us for g in gotu):
+            ctx.violate("C07", "unspents-extension-roundtrip", {"enc": "tx+unspents", "sent": [u["value"] for u in us],
+                                                                "got": [[None if x is None else x["value"] for x in g] for g in gotu]})
+        elif again != rawu:
+            ctx.violate("C07", "reserialisation-differs", {"enc": "tx+unspents"})
     if mw.has_witness(m):
         ctx.probe("wire_tx_witness")
         if all(not any(i["witness"]) for i in m["ins"]):
